@@ -192,17 +192,21 @@ def isNote : El → Bool
   | .note _ => true
   | _ => false
 
-def tokOf (n : XNote) : Option ((Nat × Nat) × Cell) := (noteTok n).map fun t => ((n.voice, n.staff), t)
+/-- the column of a note -/
+def keyOf (n : XNote) : Nat × Nat := (n.voice, n.staff)
+
+def gracesOf (notes : List XNote) : List XNote := notes.filter fun n => n.kind = 1
+def plainOf (notes : List XNote) : List XNote := notes.filter fun n => n.kind ≠ 1
+def colNotes (notes : List XNote) (col : Nat × Nat) : List XNote := notes.filter fun n => keyOf n = col
+
+def tokOf (n : XNote) : Option ((Nat × Nat) × Cell) := (noteTok n).map fun t => (keyOf n, t)
 
 /-- the rows written for one time point: tandem elements, then measures, then one row per grace note,
     then the row of the notes and rests -/
 def pointRows (cols : List (Nat × Nat)) (els : List El) : Option (List Row) :=
   let structural := els.filter fun e => !isNote e
   let ordered := (structural.filter fun e => !isMeasure e) ++ structural.filter isMeasure
-  let notes := notesOf els
-  let graces := notes.filter fun n => n.kind = 1
-  let plain := notes.filter fun n => n.kind ≠ 1
-  match graces.mapM tokOf, plain.mapM tokOf with
+  match (gracesOf (notesOf els)).mapM tokOf, (plainOf (notesOf els)).mapM tokOf with
   | some gs, some ps =>
     some ((ordered.map (structRows cols)).flatten
           ++ gs.map (fun g => cols.map (noteCell [g]))
@@ -251,15 +255,23 @@ def elOk (divs : Nat) : El → Bool
   | .clef _ sign _ => sign.toList.map Char.toUpper = ['G'] || sign.toList.map Char.toUpper = ['F'] || sign.toList.map Char.toUpper = ['C']
   | _ => true
 
+/-- the first non-grace note of a column among the notes of a time point -/
+def firstPlain (notes : List XNote) (col : Nat × Nat) : Option XNote := (colNotes (plainOf notes) col).head?
+
+def bump (t : Nat) (notes : List XNote) (col : Nat × Nat) (v : Nat) : Nat :=
+  match firstPlain notes col with
+  | some n => t + n.dur
+  | none => v
+
 /-- every spine is complete: whatever starts at `t` in a column starts where the column's previous token
     ended; the first non-grace note of the column at `t` (the one whose value moves the spine on) decides
     where the next token has to start.  `nexts`: column ↦ next free time in divisions -/
 def advanceCols (nexts : List ((Nat × Nat) × Nat)) (t : Nat) (notes : List XNote) : Option (List ((Nat × Nat) × Nat)) :=
-  if notes.all (fun n => lookup (n.voice, n.staff) nexts = some t) then
-    some (nexts.map fun e =>
-      match (notes.filter fun n => n.kind ≠ 1 && (n.voice, n.staff) = e.1).head? with
-      | some n => (e.1, t + n.dur)
-      | none => e)
+  if notes.all (fun n => lookup (keyOf n) nexts = some t) &&
+     -- the notes of a chord are equally long (kern allows other chords, but `load_kern` gives all notes of a
+     -- chord the length of the last one, the semantics gives each its own: outside the common ground)
+     notes.all (fun n => n.kind = 1 || (firstPlain notes (keyOf n)).map (·.dur) = some n.dur) then
+    some (nexts.map fun e => (e.1, bump t notes e.1 e.2))
   else none
 
 def spinesComplete : List ((Nat × Nat) × Nat) → List (Nat × List El) → Bool
